@@ -70,7 +70,7 @@ func (p *PhyloXML) IterateTrees(it func(*tree.Tree, error)) {
 
 func (p *PhyloXML) FirstTree() (t *tree.Tree, err error) {
 	for _, phylo := range p.Phylogenies {
-		t := tree.NewTree()
+		t = tree.NewTree()
 		err = phylogenyToTree(&phylo, t)
 		break
 	}
